@@ -28,6 +28,14 @@ def with_big_stack(exe_m):
     return sh
 
 
+def cleanup(cases):
+    for f in (cases, cases[:-len(".cases")] + ".stats.json"):
+        try:
+            os.remove(f)
+        except OSError:
+            pass
+
+
 def judge(c, exe_m, cases, stream):
     """returns (mismatches, nskip, ntotal, skip reasons)"""
     try:
@@ -83,11 +91,15 @@ def run(tier, seed):
             c.broken_correspondence("model-extraction", None, V.tail(mlog, 40))
         else:
             n = 1500 if tier == "quick" else 40000
-            rc, out, cases, st = V.run_harness("sem", "c01", seed, n, tier)
+            # private file names: concurrent runs of this check must not read each other's cases
+            rc, out, cases, st = V.run_harness("sem", "c01", seed, n, tier, name="c01-%s-%d" % (tier, os.getpid()))
             if rc != 0:
                 c.broken_correspondence("harness-run", None, V.tail(out, 40))
             else:
                 mism, nskip, ntotal, reasons = judge(c, exe_m, cases, "c01")
+                if ntotal != st.get("lines"):
+                    c.broken_correspondence("c01", None, "judged %s cases but the harness wrote %s" % (ntotal, st.get("lines")))
+                cleanup(cases)
                 for v in (st.get("impl_violations") or []):
                     c.failing_input("implementation-only oracle (panic / builtin.go out of sync with builtin.jq)", v, v)
     # every impl != Sem case is a concrete input on which the implementation departs from the
